@@ -58,7 +58,7 @@ theorem source_facts :
     Gen.routeVersionCode = specCodes.versionMismatch ∧ Gen.routeUtf8Code = specCodes.invalidQuery ∧
     Gen.routeRawBinaryCode = specCodes.invalidQuery ∧ Gen.routeLookupCode = specCodes.methodNotFound ∧
     Gen.notifyValue = 1 ∧ Gen.unknownQueryFormatIsRawBinary = true ∧ Gen.versionTestIsNe = true ∧
-    Gen.routeRejectSites = 4 ∧ Gen.routeDispatchSites = 1 ∧
+    Gen.routeRejectSites = 4 ∧ Gen.routeDispatchSites = 1 ∧ Gen.routeSlices = 0 ∧
     -- timers / timeouts / sleeps in: blocking loop, async loop, WebSocket reader, writer, off-reader spawn, dispatch fns
     Gen.timerArms = [2, 3, 0, 5, 0, 0] := by decide
 
